@@ -15,7 +15,96 @@ pub fn count(tier: Tier) -> u64 {
     tier.pick(320, 3000)
 }
 
+/// The search itself, exhaustively within a bound: every strictly increasing sequence of length <= 8 over 10 symbols
+/// whose smallest element is `first` (k = 0..9 share the work), every window, every probe 0..=10, both modes.
+/// The oracle is the position of the probe in the window (`slice::binary_search`).
+fn run_find_exhaustive(desc: &Value) -> CaseOut {
+    struct Cmp<'a> {
+        seq: &'a [u8],
+        probe: u8,
+        ordered: bool,
+    }
+    impl CompareTrait for Cmp<'_> {
+        fn ordered(&self) -> bool {
+            self.ordered
+        }
+        fn compare_entry(&self, idx: jbk::EntryIdx) -> jbk::Result<Ordering> {
+            Ok(self.seq[idx.into_u32() as usize].cmp(&self.probe))
+        }
+    }
+    let mut out = CaseOut::new();
+    let first = ju64(desc, "first") as u8;
+    let mut sequences = 0u64;
+    let mut calls = 0u64;
+    let r = util::catch(|| {
+        // subsets of {first+1..9} of size <= 7, prefixed by `first` (plus the empty sequence for first == 0)
+        let rest: Vec<u8> = (first + 1..10).collect();
+        let mut seqs: Vec<Vec<u8>> = vec![];
+        for mask in 0u32..(1 << rest.len()) {
+            if mask.count_ones() > 7 {
+                continue;
+            }
+            let mut s = vec![first];
+            for (i, v) in rest.iter().enumerate() {
+                if mask & (1 << i) != 0 {
+                    s.push(*v);
+                }
+            }
+            seqs.push(s);
+        }
+        if first == 0 {
+            seqs.push(vec![]);
+        }
+        for seq in &seqs {
+            sequences += 1;
+            for off in 0..=seq.len() {
+                for cnt in 0..=(seq.len() - off) {
+                    let range = jbk::EntryRange::new_from_size(jbk::EntryIdx::from(off as u32), jbk::EntryCount::from(cnt as u32));
+                    let window = &seq[off..off + cnt];
+                    for probe in 0u8..=10 {
+                        let expected = window.binary_search(&probe).ok().map(|p| p as u32);
+                        for ordered in [true, false] {
+                            calls += 1;
+                            let got = range.find(&Cmp { seq, probe, ordered });
+                            let got = match got {
+                                Ok(g) => g.map(|i| i.into_u32()),
+                                Err(e) => {
+                                    out.violate(json!({"kind": "find-error", "profile": profile()}), format!("C03: find returned an error: {e}"), json!({}));
+                                    return;
+                                }
+                            };
+                            if got != expected {
+                                out.violate(
+                                    json!({"kind": "find", "mode": if ordered { "binary" } else { "linear" }, "window_offset_zero": off == 0, "expected_present": expected.is_some(), "profile": profile()}),
+                                    format!("C03: find over sequence {seq:?} window [{off}, +{cnt}) probe {probe} ({}) answers {got:?}, expected {expected:?}", if ordered { "binary" } else { "linear" }),
+                                    json!({}),
+                                );
+                                if out.viols.len() >= 4 {
+                                    return;
+                                }
+                            }
+                        }
+                    }
+                }
+            }
+        }
+    });
+    if let Err(p) = r {
+        out.violate_panic("C03", "find", "exhaustive", &p);
+    }
+    out.obs.add("find_exhaustive.sequences", sequences);
+    out.obs.add("find_exhaustive.calls", calls);
+    out.nontrivial = true;
+    let mut fp = crate::rng::Fp::new();
+    fp.s("find-exhaustive").u(first as u64);
+    out.fp = fp.hex();
+    out
+}
+
 pub fn gen(seed: u64, tier: Tier, k: u64) -> Value {
+    if k < 10 {
+        return json!({"mode": "find-exhaustive", "first": k});
+    }
     let mut rng = Rng::keyed(seed, "C03", k);
     let quick_prefixes = [0u8, 1, 2, 3, 8, 31];
     let prefix = match tier {
@@ -157,6 +246,9 @@ fn neighbours(key: &[Val], rng: &mut Rng) -> Vec<Vec<Val>> {
 }
 
 pub fn run(desc: &Value, ctx: &Ctx) -> CaseOut {
+    if jstr(desc, "mode") == "find-exhaustive" {
+        return run_find_exhaustive(desc);
+    }
     let mut out = CaseOut::new();
     let case = DirCase::from_json(desc);
     observe(&case, &mut out);
